@@ -213,11 +213,17 @@ def postNotif (H : List Text) (st : PostSt) (m : Obj) : PostSt :=
 def postReceived (H : List Text) (st : PostSt) (o : CallOut) : PostSt :=
   if H = [] then { st with done := some o, result := some o } else { st with result := some o }
 
+/-- `processEventData`'s test "this is the answer to request `req`" (`id, hasID := jsonResp["id"]; hasID && %v-equal`) -/
+def postAddressed (req : Nat) (m : Obj) : Bool :=
+  match lookup m t!"id" with
+  | some id => idMatches req id
+  | none => false
+
 /-- `processEventData` -/
 def postData (req : Nat) (H : List Text) (st : PostSt) (p : Payload) : PostSt :=
   match p.json with
   | some (.obj m) =>
-    if (match lookup m t!"id" with | some id => idMatches req id | none => false) then
+    if postAddressed req m then
       -- handleResponseMessage
       if hasKey m t!"error" then postReceived H st .rpcError
       else match lookup m t!"result" with
@@ -440,5 +446,44 @@ def legEvent (v : Json) (size : Nat) : List Line := [eventLine t!"message", data
 
 /-- one event on the GET stream -/
 def getEvent (v : Json) (size : Nat) : List Line := [dataLine v size, blankLine]
+
+/-! ## specification vocabulary (used by the statements in `Mcp.Props.C07`) -/
+
+/-- a line the POST-SSE reader passes over: it neither ends the call nor records an answer (comments, blank lines, unknown
+    fields, `id:` / `event:` lines, and `data:` lines holding a JSON object for somebody else that decodes as a notification) -/
+def postInert (req : Nat) (l : Line) : Bool :=
+  match l.kind with
+  | .data p =>
+    match p.json with
+    | some (.obj m) => !postAddressed req m && notifDecodes m
+    | some .null => true
+    | _ => false
+  | _ => true
+
+/-- the payload is a JSON object whose id selects call `c` in the legacy transport's table (`%v` equality) -/
+def legAddressed (c : Nat) (p : Payload) : Bool :=
+  match p.json with
+  | some (.obj m) => hasKey m t!"id" && idMatches c (idOf m)
+  | _ => false
+
+/-- the line carries a payload addressed to call `c` -/
+def legLineAddressed (c : Nat) (l : Line) : Bool :=
+  match l.kind with
+  | .data p => legAddressed c p
+  | _ => false
+
+/-- the value is an object whose id selects call `c` in the stdio transport's table (`int64(float64)` conversion) -/
+def stdioAddressed (c : Nat) : Frame → Bool
+  | .value (.obj m) => keyIs c (idOf m)
+  | _ => false
+
+/-- states of the legacy reader that agree on everything call `c` can observe -/
+def LegSim (c : Nat) (s1 s2 : LegSt) : Prop :=
+  s1.halt = s2.halt ∧ s1.etype = s2.etype ∧ s1.data = s2.data ∧ s1.latch = s2.latch ∧
+    s1.tbl.pending = s2.tbl.pending ∧ s1.tbl.got c = s2.tbl.got c
+
+/-- states of the stdio reader that agree on everything call `c` can observe -/
+def StdioSim (c : Nat) (s1 s2 : StdioSt) : Prop :=
+  s1.halt = s2.halt ∧ s1.closed = s2.closed ∧ s1.tbl.pending = s2.tbl.pending ∧ s1.tbl.got c = s2.tbl.got c
 
 end Mcp.Readers
